@@ -7,6 +7,8 @@
     implementation counterpart and libzstd (partial). *)
 Require Import Zrs.lib.RsPrelude Zrs.gen.Generated Zrs.model.FrameEnc.
 Require Import Zrs.proofs.C14_Tables Zrs.proofs.C14_Headers Zrs.proofs.C15_Frame Zrs.proofs.C02_Roundtrip.
+Require Import Zrs.model.FseDec Zrs.model.BlockDec Zrs.model.Matcher Zrs.model.SeqSection Zrs.model.BlockEnc.
+Require Import Zrs.proofs.C06_Drain Zrs.proofs.C17_Matcher Zrs.proofs.C17_Shape Zrs.proofs.C02_Glue Zrs.proofs.C02_FastBlock.
 Open Scope Z_scope.
 
 (** any block encoder / matcher: the emitted block is the raw block unless the compressed body is strictly
@@ -49,6 +51,43 @@ Theorem C16_offset_codes : forall v, 1 <= v < 2 ^ 32 ->
   c = n /\ 0 <= c <= 31 /\ 0 <= a < 2 ^ c /\ 2 ^ c + a = v /\ encode_offset_safe v = true.
 Proof. exact encode_offset_spec. Qed.
 
+(** ANY matcher: if what it reports for a block -- matches with their preceding literals, then possibly trailing
+    literals -- rebuilds the block from the bytes before it with in-range distances ([apply_seqs], the contract of the
+    property), then the decoder, executing what the block encoder makes of that report (one literal buffer;
+    literal length, match length, offset + 3 per match), appends exactly the block to any buffer ending with those
+    bytes, for any offset history *)
+Theorem C16_any_valid_parse_executes : forall ts tail H data buf hist pre,
+  Forall is_triple ts -> (tail = [] \/ exists l, tail = [MLit l]) ->
+  apply_seqs H (ts ++ tail) = Some (H ++ data) ->
+  db_wf buf -> db_rev buf = rev H ++ pre -> hist3 hist -> Z.of_nat (length data) <= MAX_BLOCK_SIZE ->
+  exists buf' hist',
+    execute_sequences (mseqs_seqs (ts ++ tail)) (mseqs_lits (ts ++ tail)) buf hist = ROk (buf', hist') /\
+    db_wf buf' /\ db_rev buf' = rev (H ++ data) ++ pre /\ hist3 hist' /\
+    db_dict buf' = db_dict buf /\ db_window buf' = db_window buf /\ db_hashed_rev buf' = db_hashed_rev buf.
+Proof. exact matcher_output_executes. Qed.
+
+(** ... and through the bytes of the block when its literals go out raw: the block body the model writes for that
+    report is decoded by [decompress_block] to exactly that effect (matches of length >= 2; side conditions on the
+    tables decidable and evaluated on the real blocks of every run, see C02_raw_literal_block_decodes) *)
+Theorem C16_any_valid_parse_block_with_raw_literals : forall ts tail H data dl do dm body sc pre,
+  Forall is_triple ts -> (tail = [] \/ exists l, tail = [MLit l]) -> Forall long_enough (ts ++ tail) ->
+  apply_seqs H (ts ++ tail) = Some (H ++ data) -> Z.of_nat (length data) <= MAX_BLOCK_SIZE ->
+  block_raw_lits (mseqs_lits (ts ++ tail)) dl do dm (mseqs_seqs (ts ++ tail)) = ROk body ->
+  (mseqs_seqs (ts ++ tail) <> [] -> section_hyps_b dl do dm (mseqs_seqs (ts ++ tail)) = true) ->
+  t_max_symbol (fs_ll (sc_fse sc)) = MAX_LITERAL_LENGTH_CODE -> t_max_symbol (fs_of (sc_fse sc)) = MAX_OFFSET_CODE ->
+  t_max_symbol (fs_ml (sc_fse sc)) = MAX_MATCH_LENGTH_CODE ->
+  db_wf (sc_buf sc) -> db_rev (sc_buf sc) = rev H ++ pre -> hist3 (sc_hist sc) ->
+  exists sc',
+    decompress_block (zlen body) sc body = ROk sc' /\
+    db_wf (sc_buf sc') /\ db_rev (sc_buf sc') = rev (H ++ data) ++ pre /\ hist3 (sc_hist sc') /\
+    sc_huf sc' = sc_huf sc /\ db_dict (sc_buf sc') = db_dict (sc_buf sc) /\ db_window (sc_buf sc') = db_window (sc_buf sc) /\
+    db_hashed_rev (sc_buf sc') = db_hashed_rev (sc_buf sc) /\
+    t_max_symbol (fs_ll (sc_fse sc')) = MAX_LITERAL_LENGTH_CODE /\ t_max_symbol (fs_of (sc_fse sc')) = MAX_OFFSET_CODE /\
+    t_max_symbol (fs_ml (sc_fse sc')) = MAX_MATCH_LENGTH_CODE.
+Proof. exact fastest_raw_literal_block. Qed.
+
+Print Assumptions C16_any_valid_parse_executes.
+Print Assumptions C16_any_valid_parse_block_with_raw_literals.
 Print Assumptions C16_fallback_decision.
 Print Assumptions C16_size_bound_for_any_matcher.
 Print Assumptions C16_sequence_count_roundtrip.
